@@ -12,8 +12,25 @@ EXC_CLASSES = ("Tagged", "TaggedTimeout", "ValueError", "KeyError", "OSError", "
                "trio.TooSlowError", "trio.ClosedResourceError", "trio.BrokenResourceError", "trio.RunFinishedError",
                "trio.BusyResourceError", "trio.WouldBlock", "trio.EndOfChannel", "trio.TrioInternalError")
 FAIL_KINDS = [{"kind": "exc", "cls": c} for c in EXC_CLASSES] + \
-             [{"kind": "value", "v": v} for v in ("zero", "zerof", "false", "empty", "list", "tuple", "one", "str", "obj", "falsyobj")] + \
+             [{"kind": "value", "v": v} for v in ("zero", "zerof", "false", "empty", "list", "tuple", "one", "str", "obj", "falsyobj", "excobj")] + \
              [{"kind": "baseExc", "cls": c} for c in ("TaggedBase", "SystemExit", "GeneratorExit")]
+
+
+def gen_arg(rng):
+    """arguments are opaque to the runtime: ints, equal values of other types, objects without a repr"""
+    r = rng.random()
+    if r < 0.6:
+        return rng.randint(0, 9)
+    if r < 0.7:
+        return {"$float": float(rng.randint(0, 2))}
+    if r < 0.8:
+        return {"$bool": rng.randint(0, 1)}
+    if r < 0.9:
+        return "$badrepr"
+    return rng.choice(["text", "", None])
+
+
+VIA = ["trio-to-thread", "aio-executor", "aio-direct", "thread"]
 
 
 def bystanders(rng, pid0, max_per=3, cleanup=False):
@@ -29,6 +46,9 @@ def bystanders(rng, pid0, max_per=3, cleanup=False):
                 if script[0][0] == "spin":
                     script.append(["forever", 0.01])
             p = {"pid": pid, "fl": fl, "script": script, "role": "bystander"}
+            if fl == "aio" and rng.random() < 0.2:
+                # survives its first cancellation(s): takes them for a wake-up and waits on
+                p["swallow"] = rng.choice([1, 1, 2, 3])
             if cleanup and fl != "thr":
                 c = {}
                 if rng.random() < 0.6:
@@ -51,12 +71,19 @@ def place(rng, payloads, pid0):
         if mode == "queued":
             before.append(["adopt", p["pid"]])
         elif mode == "outside":
-            control.append(["adopt", p["pid"]])
+            if rng.random() < 0.2:
+                # from a thread that is itself inside a private asyncio loop / trio run, or a helper thread
+                control.append(["via", rng.choice(VIA), ["adopt", p["pid"]]])
+            else:
+                control.append(["adopt", p["pid"]])
         elif mode == "inside":
             fl = rng.choice(FLAVS)
             # a helper payload of flavour fl adopts p from inside the runtime, then idles
+            call = ["adopt", p["pid"]]
+            if fl == "thr" and rng.random() < 0.3:
+                call = ["via", rng.choice(VIA), call]
             h = {"pid": pid, "fl": fl, "role": "helper", "mode": "outside",
-                 "script": [["adopt", p["pid"]], ["forever", 0.02] if fl != "thr" else ["wait", "never"]]}
+                 "script": [call, ["forever", 0.02] if fl != "thr" else ["wait", "never"]]}
             if fl == "aio" and p["fl"] == "trio":
                 # known: registering a trio payload from the asyncio loop thread blocks the loop
                 # while trio is busy executing into asyncio; harmless here (no execute in flight)
@@ -145,14 +172,21 @@ def fam_startonce(rng):
     pid = 1
     for fl in FLAVS:
         for _ in range(rng.randint(0, 6)):
-            args = {"args": [rng.randint(0, 9) for _ in range(rng.randint(0, 3))],
-                    "kwargs": {k: rng.randint(0, 9) for k in rng.sample(["a", "b", "c"], rng.randint(0, 2))}}
+            args = {"args": [gen_arg(rng) for _ in range(rng.randint(0, 3))],
+                    "kwargs": {k: gen_arg(rng) for k in rng.sample(["a", "b", "c"], rng.randint(0, 2))}}
             script = [["forever", 0.02]] if fl != "thr" else [["wait", "never"]]
             if rng.random() < 0.3:
                 script = [["sleep", 0.01], ["end", {"kind": "none"}]]
             ps.append({"pid": pid, "fl": fl, "script": script, "role": "counted", "args": args})
             pid += 1
+    for _ in range(rng.choice([0, 0, 1, 2])):
+        # a bound method of a built-in object as payload (thread flavour): box.append(pid)
+        ps.append({"pid": pid, "fl": "thr", "script": [], "role": "counted", "builtin": True, "args": None,
+                   "mode": rng.choice(["queued", "outside", "inside"])})
+        pid += 1
     for p in ps:
+        if p.get("builtin"):
+            continue
         # services take no arguments
         m = rng.choice(["queued", "outside", "outside", "inside", "service-before", "service-after"])
         if m.startswith("service"):
@@ -232,7 +266,7 @@ def fam_execute(rng):
     for _ in range(rng.randint(1, 8)):
         fl = rng.choice(FLAVS)
         out = rng.choice([{"kind": "none"}] + [k for k in FAIL_KINDS if k["kind"] != "baseExc"])
-        args = {"args": [rng.randint(0, 9) for _ in range(rng.randint(0, 2))], "kwargs": {k: 1 for k in rng.sample(["a", "b"], rng.randint(0, 1))}}
+        args = {"args": [gen_arg(rng) for _ in range(rng.randint(0, 2))], "kwargs": {k: gen_arg(rng) for k in rng.sample(["a", "b"], rng.randint(0, 1))}}
         e = {"pid": pid, "fl": fl, "script": [["end", out]], "role": "executed", "out": out, "args": args}
         pid += 1
         execs.append(e)
@@ -276,6 +310,21 @@ def fam_execute(rng):
         callers.append(c)
         before = before + [["adopt", c["pid"]]] + [["adopt", m["pid"]] for m in more]
         allp += more
+    if rng.random() < 0.35:
+        # one callable executed several times in a row with arguments that compare equal but are
+        # not the same (1, True, 1.0; 0.0, -0.0 ...): every call gets exactly its own arguments
+        fl = rng.choice(FLAVS)
+        vals = rng.choice([[1, {"$bool": 1}, {"$float": 1.0}, 1], [0, {"$bool": 0}, {"$float": 0.0}], [{"$float": 0.0}, {"$float": -0.0}, 0],
+                           [{"$float": 2.0}, 2, {"$float": 2.0}]])
+        kw = rng.random() < 0.4
+        grp = []
+        for v in vals:
+            grp.append({"pid": pid, "fl": fl, "script": [["end", {"kind": "none"}]], "role": "executed", "out": {"kind": "none"},
+                        "share": "eq%d" % pid if not grp else grp[0]["share"], "ctx": "outside",
+                        "args": {"args": [] if kw else [v], "kwargs": {"demand": v} if kw else {}}})
+            pid += 1
+        execs += grp
+        control += [["execute", g["pid"]] for g in grp]
     shape = rng.random()
     if shape < 0.12:
         # nested executes: each executed thread-flavour payload executes the next one before it
@@ -355,6 +404,28 @@ def fam_threads(rng):
         pid += 1 + len(kids)
         execs += [h] + kids
         ctl_exec.append(["adopt", h["pid"]])
+    if rng.random() < 0.3:
+        # far more blocked thread payloads than any sensible pool size, registered from a coroutine
+        # payload, before start, or as services: the coroutine threads must not wait for a free thread
+        n = rng.choice([24, 40, 48])
+        how = rng.choice(["aio", "trio", "queued", "service"])
+        many = [{"pid": pid + i, "fl": "thr", "script": [["block", 1.5], ["wait", "never"]], "role": "blocker",
+                 "mode": "many-" + how} for i in range(n)]
+        pid += n
+        if how in ("aio", "trio"):
+            h = {"pid": pid, "fl": how, "role": "helper", "mode": "outside",
+                 "script": [["adopt", m["pid"]] for m in many] + [["forever", 0.01]]}
+            pid += 1
+            execs += [h]
+            ctl_exec.append(["adopt", h["pid"]])
+        elif how == "queued":
+            before = before + [["adopt", m["pid"]] for m in many]
+        else:
+            ctl_exec += [["service", m["pid"]] for m in many]
+        execs += many
+        # starting that many threads takes its time (more so on a busy machine): judge the heartbeats late
+        control = [["wait-running"]] + control + [["wait-count", "start", len(allp), 3]] + ctl_exec + [["sleep", 1.0], ["shutdown"]]
+        return {"family": "threads", "many": n, "payloads": allp + execs, "before": before, "control": control, "watchdog": 16}
     control = [["wait-running"]] + control + [["wait-count", "start", len(allp), 3]] + ctl_exec + [["sleep", 0.3], ["shutdown"]]
     return {"family": "threads", "payloads": allp + execs, "before": before, "control": control, "watchdog": 14}
 
@@ -365,6 +436,8 @@ def fam_lifecycle(rng):
     payloads = []
     pid = 1
     nruns = rng.randint(2, 4)
+    # the polling loop of accept looks at the shutdown request every `accept_delay` at most
+    accept_delay = rng.choice([0.02, 0.02, 0.2])
     for r in range(nruns):
         rid = r
         by, pid2 = bystanders(rng, pid, max_per=2)
@@ -398,7 +471,12 @@ def fam_lifecycle(rng):
                                  [y for l in late[:half] for y in (["adopt", l["pid"], rid], ["sleep", 0.004])],
                                  [y for l in late[half:] for y in (["adopt", l["pid"], rid], ["sleep", 0.007])]]]]
         elif end == "shutdown":
-            ctl.append(["shutdown", rid])
+            if accept_delay > 0.1 and rng.random() < 0.7:
+                # another thread tries to accept on the very same runner just after shutdown() was called,
+                # before the polling loop has noticed the request
+                ctl.append(["threads", [[["shutdown", rid]], [["sleep", rng.choice([0.0, 0.002, 0.005, 0.01])], ["accept-thread", rid]]]])
+            else:
+                ctl.append(["shutdown", rid])
         elif end == "sigint":
             ctl.append(["sigint"])
         elif end == "failure":
@@ -412,8 +490,12 @@ def fam_lifecycle(rng):
             by.append(f)
             ctl.append(["adopt", f["pid"], rid])
         payloads += by
-        runs.append({"rid": rid, "control": ctl, "end": end, "join": 4})
-    return {"family": "lifecycle", "payloads": payloads, "runs": runs, "watchdog": 25}
+        after = []
+        if rng.random() < 0.4:
+            # shutdown() on a runner that has already ended, from this and from another thread
+            after = rng.choice([[["shutdown", rid]], [["shutdown", rid], ["threads", [[["shutdown", rid]]]]], [["threads", [[["shutdown", rid]], [["shutdown", rid]]]]]])
+        runs.append({"rid": rid, "control": ctl, "end": end, "join": 4, "after": after})
+    return {"family": "lifecycle", "payloads": payloads, "runs": runs, "watchdog": 25, "accept_delay": accept_delay}
 
 
 FAMILIES = {"failure": fam_failure, "termination": fam_termination, "startonce": fam_startonce,
